@@ -31,7 +31,9 @@ ARGS = {"nice_set": (0,), "rlimit": (1,), "net_connections": ("inet",), "cpu_aff
 SKIP = {"wait", "oneshot_enter", "oneshot_exit", "nt_mmap_ext", "nt_mmap_grouped", "kill", "suspend", "resume"}
 SKIP_ON = {"aix": {"open_files"}, "openbsd": {"exe"}}       # subprocess / shutil.which based
 # methods that document a fallback when the failing native call is refused / the link cannot be resolved (returning normally is right)
-RETURN_OK = {("aix", "cwd", "ENOENT"), ("sunos", "cwd", "ENOENT"), ("netbsd", "cmdline", "EINVAL")}
+RETURN_OK = {("aix", "cwd", "ENOENT"), ("sunos", "cwd", "ENOENT"), ("netbsd", "cmdline", "EINVAL"),
+             # Solaris: uids()/gids() fall back to the basic-info record when the credentials file is refused (documented in the source; C20.procfs_slots checks the values)
+             ("sunos", "uids", "EPERM"), ("sunos", "uids", "EACCES"), ("sunos", "gids", "EPERM"), ("sunos", "gids", "EACCES")}
 RETURN_OK_ANY = set()
 WIN_FALLBACKS = {"memory_info", "memory_full_info", "cpu_times", "create_time", "io_counters", "num_handles", "exe", "name", "username"}
 # documented platform-specific translations (the comments in the source explain them): outcome sets accepted as they are
@@ -59,6 +61,7 @@ def _pre(mods, lab):
 def get(name):
     d = PLATFORMS[name]
     pkg, mods, lab = plat.load(d["alias"], d["platform"], d["natives"], d["osname"], _pre)
+    plat.reset(d["alias"])
     return pkg, pkg._psplatform, mods, lab, d["family"]
 
 
